@@ -84,11 +84,13 @@ pub(crate) struct WorldCfg {
     pub confed: Option<(u32, Vec<u32>)>,
     pub peers: Vec<PeerSpec>,
     pub kernel: bool,
+    /// route-reflector cluster id configured on every neighbour (None: the router id)
+    pub cluster_id: Option<Ipv4Addr>,
 }
 
 impl Default for WorldCfg {
     fn default() -> Self {
-        WorldCfg { asn: 65000, router_id: Ipv4Addr::new(10, 0, 0, 254), shards: 1, confed: None, peers: vec![], kernel: false }
+        WorldCfg { asn: 65000, router_id: Ipv4Addr::new(10, 0, 0, 254), shards: 1, confed: None, peers: vec![], kernel: false, cluster_id: None }
     }
 }
 
